@@ -3,8 +3,10 @@
 package gomatrixserverlib
 
 import (
+	"bytes"
 	"encoding/json"
 	"fmt"
+	"hash/fnv"
 	"reflect"
 	"regexp"
 	"strings"
@@ -245,6 +247,54 @@ func c03Check(ctx *vfCtx, c c03Case) {
 	if ctx.Failed() {
 		return
 	}
+	// --- the bulk parsers (lists of events out of a response or a database), fed the event in another JSON
+	// spelling of the same value (what a re-encoding hop - encoding/json, another implementation - makes
+	// of it): the same event, not marked redacted
+	if jt, jerr := evTree(js); jerr == nil {
+		h := fnv.New64a()
+		h.Write(js)
+		respelled := []byte(jspellSeed(h.Sum64()|1, jt))
+		for _, bulk := range []string{"trusted-bulk", "untrusted-bulk", "trusted-respelled"} {
+			if bytes.Contains(respelled, []byte("-0")) {
+				// a zero depth / timestamp spelled -0: every parser decodes the envelope from the text as it
+				// arrived and refuses -0 for an unsigned field (a clean refusal). The statement is about the
+				// event's own JSON; this one re-spelling is not demanded.
+				ctx.Class("reparse/" + bulk + "/minus-zero-not-judged")
+				continue
+			}
+			var got PDU
+			var gerr error
+			if vfCatch(ctx, "C03/"+bulk, func() {
+				switch bulk {
+				case "trusted-bulk":
+					list := EventJSONs{append([]byte(nil), respelled...)}.TrustedEvents(RoomVersion(p.Version), false)
+					if len(list) == 1 {
+						got = list[0]
+					} else {
+						_, single := impl.NewEventFromTrustedJSON(append([]byte(nil), respelled...), false)
+						gerr = fmt.Errorf("TrustedEvents returned %d events for 1 (the single-event parser says: %v) text=%q", len(list), single, respelled)
+					}
+				case "untrusted-bulk":
+					list := EventJSONs{append([]byte(nil), respelled...)}.UntrustedEvents(RoomVersion(p.Version))
+					if len(list) == 1 {
+						got = list[0]
+					} else {
+						_, single := impl.NewEventFromUntrustedJSON(append([]byte(nil), respelled...))
+						gerr = fmt.Errorf("UntrustedEvents returned %d events for 1 (the single-event parser says: %v)", len(list), single)
+					}
+				default:
+					got, gerr = impl.NewEventFromTrustedJSON(append([]byte(nil), respelled...), false)
+				}
+			}) {
+				return
+			}
+			ctx.Class("reparse/" + bulk)
+			check(bulk, got, gerr)
+			if ctx.Failed() {
+				return
+			}
+		}
+	}
 	// --- the same proto-event as a handler gets it: decoded from JSON into a template variable that is
 	// reused for the next request while the builder made from it is still in use
 	if tr.Format == 2 && len(p.Content) >= 2 {
@@ -447,11 +497,19 @@ func c03Check(ctx *vfCtx, c c03Case) {
 		var hj []byte
 		var herr, hperr error
 		var hid string
+		var hflag bool
+		var hredacted []byte
 		if vfCatch(ctx, "C03/edit/"+label+"/headered", func() {
 			if hj, herr = e.ToHeaderedJSON(); herr == nil {
 				var back PDU
 				if back, hperr = NewEventFromHeaderedJSON(append([]byte(nil), hj...), e.Redacted()); hperr == nil {
 					hid = back.EventID()
+					hflag = back.Redacted()
+					if !e.Redacted() {
+						// reloaded as an unredacted event it can still be redacted: nothing but the kept content is left
+						back.Redact()
+						hredacted = back.JSON()
+					}
 				}
 			}
 		}) {
@@ -459,6 +517,18 @@ func c03Check(ctx *vfCtx, c c03Case) {
 		}
 		if herr != nil || hperr != nil || hid != orig.EventID {
 			ctx.Fail("C03/headered-form-lost-by/"+label, "after %s the event's headered form does not parse back to it (ToHeaderedJSON: %v, NewEventFromHeaderedJSON: %v, event ID %q, want %q): %q", label, herr, hperr, hid, orig.EventID, hj)
+		} else if hflag != e.Redacted() {
+			ctx.Fail("C03/headered-form-changes-redacted-flag/"+label, "after %s the event (Redacted() = %v) reloaded from its headered form with redacted = %v reports Redacted() = %v: %q", label, e.Redacted(), e.Redacted(), hflag, hj)
+		} else if hredacted != nil {
+			if bt, berr := evTree(hredacted); berr == nil {
+				if et, eerr := evTree(e.JSON()); eerr == nil {
+					bc, _ := bt.get("content")
+					wc, _ := rredact(p.Version, et).get("content")
+					if !jequal(bc, wc) {
+						ctx.Fail("C03/reloaded-event-not-redactable/"+label, "after %s the event reloaded from its headered form keeps content %s after Redact(), the version's algorithm keeps %s", label, jcanon(bc), jcanon(wc))
+					}
+				}
+			}
 		}
 	}
 	for i, ed := range c.Edits {
